@@ -151,16 +151,26 @@ def handlePrag (j : Json) : R (List (String × Json)) := do
   let implErr := (impl.getObjVal? "err").toOption
   let maxIndex := locs.foldl max 0
   let codes := validateRouting profiles vs maxIndex ms
+  let withUnk := (fldD j "unk" (Json.bool false)).getBool?.toOption.getD false
+  let fb : Fallback := if withUnk then unknownFallback else none
+  let cidx := customIndex locs
   let model : Json :=
     if !codes.isEmpty then Json.mkObj [("err", jList Json.str codes)]
     else
       match createTransportCosts readerMode profiles ms with
       | .error e => Json.mkObj [("err", jList Json.str ["E0002:" ++ readerErrorName e])]
       | .ok pr =>
-        Json.mkObj [("size", jNat pr.size),
+        let probe (f t : Nat) : Json := match (vs[0]?).bind (vehicleProfile profiles) with
+          | some p => answer pr fb p ⟨0, f, t, 0⟩
+          | none => Json.null
+        Json.mkObj ([("size", jNat pr.size),
           ("rs", jList (fun q => match (vs[q.v]?).bind (vehicleProfile profiles) with
-            | some p => answer pr none p q
-            | none => Json.null) qs)]
+            | some p => answer pr fb p q
+            | none => Json.null) qs)] ++
+          (if withUnk then [("unk", Json.mkObj [("idx", jNat cidx),
+              ("to", jList (fun i => probe i cidx) (List.range pr.size)),
+              ("from", jList (fun i => probe cidx i) (List.range pr.size)),
+              ("self", probe cidx cidx)])] else []))
   -- a deviation case (S28 / D1 / D2) that is still outside the hypotheses is exempt from the oracle it is about
   let exempt (name : String) : Bool := devName == name && !inHyp
   let unknownRejected := namesKnown profiles ms || implErr.isSome || exempt "S28"
@@ -194,8 +204,21 @@ def handlePrag (j : Json) : R (List (String × Json)) := do
           !(flagged && q.frm < n && q.to < n) || (di < 0 && (v.scale.getD 1 ≤ 0 || du < 0))
         | _, _ => true
       | _, _ => true)
+  -- the location of custom type `unknown` is at zero duration and distance from every location (D3 exempt)
+  let mut unkZero := true
+  if withUnk && implErr.isNone && !(impl.getObjVal? "panic").toOption.isSome && !exempt "D3" then
+    match (impl.getObjVal? "unk").toOption with
+    | none => unkZero := false
+    | some u =>
+      let to ← listF implAnswer u "to"
+      let frm ← listF implAnswer u "from"
+      let self ← implAnswer (← fld u "self")
+      unkZero := (to ++ frm ++ [self]).all (fun r => match r with
+        | some (a, b, c, d) => a == 0 && b == 0 && c == 0 && d == 0
+        | none => false)
   return [("model", model),
           ("oracle", Json.mkObj [("rejects_inconsistent", Json.bool rejects),
+                                 ("unknown_location_is_at_zero", Json.bool unkZero),
                                  ("unknown_name_rejected", Json.bool unknownRejected),
                                  ("reader_maps_by_name", Json.bool values),
                                  ("same_for_all_vehicles_of_profile", Json.bool same),
